@@ -11,7 +11,7 @@ class Env:
     def __init__(self): self.maps = {}
     def note(self, instr, sides):
         t = instr.split()
-        if t[0] in ("knew", "kdec", "kchmap", "kfromproto", "kdecinto"):
+        if t[0] in ("knew", "knewc", "kdec", "kchmap", "kfromproto", "kdecinto"):
             for s in sides:
                 if s.startswith("# map "):
                     f = dict(x.split("=") for x in s.split()[2:])
